@@ -67,7 +67,7 @@ Proof. reflexivity. Qed.
 (* a section: self-delimiting, parses to a node holding exactly its bytes, and assembling that
    node gives the same bytes back; all at erase polarity 0xFF and with the FFS3 flag untouched *)
 Definition sec_ok (sb : bytes) : Prop :=
-  bytes_ok sb = true /\ 4 <= zlen sb < 16777215 /\
+  bytes_ok sb = true /\ 4 <= zlen sb /\
   exists d0, forall d, (d0 <= d)%nat -> forall rest order,
     exists h kids, parse_section d 255 (sb ++ rest) order = Ok (NSec h sb kids, 255) /\
       s_ext h = zlen sb /\
@@ -147,6 +147,54 @@ Proof.
   eexists; eexists. split; [|split].
   - sec_start t body rest. rewrite T2, T21, T20, T23, T19. reflexivity.
   - cbn [s_ext sec_default]. rewrite zlen_sec_bytes. reflexivity.
+  - rewrite asm_NSec. cbn [Ffs.asm_elems bind]. unfold sec_asm. cbn [s_type sec_default].
+    rewrite T21, T20, T19. cbn [bind]. eexists; eexists; reflexivity.
+Qed.
+
+(* leaf sections with the extended common header (sections of 16 MiB and more; any size that
+   fits 32 bits): only types the parser knows can use that form *)
+Lemma zlen_sec_bytes_large t body : zlen (sec_bytes_large t body) = 8 + zlen body.
+Proof.
+  unfold sec_bytes_large. rewrite !zlen_app, le3, (zlen_le_enc 4). change (zlen [t]) with 1. lia.
+Qed.
+
+Lemma sec_ok_leaf_large t body : leaf_type t = true -> known_section t = true -> 0 <= t < 256 ->
+  bytes_ok body = true -> 8 + zlen body < 4294967295 -> sec_ok (sec_bytes_large t body).
+Proof.
+  intros Hl Hk Ht Hb Hn. pose proof (zlen_nonneg body) as Hnn.
+  destruct (leaf_type_tests t Hl) as (T2 & T21 & T20 & T23 & T19).
+  assert (Ob : bytes_ok (sec_bytes_large t body) = true).
+  { unfold sec_bytes_large. rewrite !bytes_ok_app, !le_enc_ok, Hb. cbn [bytes_ok forallb].
+    replace (byte_ok t) with true by (unfold byte_ok; lia). reflexivity. }
+  split; [exact Ob|]. split; [rewrite zlen_sec_bytes_large; lia|].
+  exists 1%nat. intros d Hd rest order. destruct d as [|d]; [lia|].
+  rewrite parse_section_S.
+  pose proof (zlen_nonneg rest) as Hr.
+  assert (F0 : rd 0 3 (sec_bytes_large t body ++ rest) = 16777215).
+  { unfold sec_bytes_large. rewrite <- app_assoc. rewrite rd_app_here by apply le3.
+    apply le_dec_enc. change (256 ^ Z.of_nat 3) with 16777216. lia. }
+  assert (F3 : rd 3 1 (sec_bytes_large t body ++ rest) = t).
+  { unfold sec_bytes_large. rewrite <- app_assoc.
+    rewrite (rd_app_skip _ _ 3 1 3) by (try apply le3; lia). change (3 - 3) with 0.
+    rewrite <- app_assoc. rewrite (rd_app_here [t]) by reflexivity. cbn [le_dec]. lia. }
+  assert (F4 : rd 4 4 (sec_bytes_large t body ++ rest) = 8 + zlen body).
+  { unfold sec_bytes_large. rewrite <- app_assoc.
+    rewrite (rd_app_skip _ _ 4 4 3) by (try apply le3; lia). change (4 - 3) with 1.
+    rewrite <- app_assoc. rewrite (rd_app_skip [t] _ 1 4 1) by (try reflexivity; lia). change (1 - 1) with 0.
+    rewrite <- app_assoc. rewrite rd_app_here by apply (zlen_le_enc 4).
+    apply le_dec_enc. change (256 ^ Z.of_nat 4) with 4294967296. lia. }
+  assert (Esub : sub 0 (8 + zlen body) (sec_bytes_large t body ++ rest) = sec_bytes_large t body).
+  { apply sub_app_here. apply zlen_sec_bytes_large. }
+  eexists; eexists. split; [|split].
+  - unfold section_body. rewrite !zlen_app, !zlen_sec_bytes_large.
+    replace (8 + zlen body + zlen rest <? 4) with false by lia.
+    rewrite F0, F3, F4, Hk. change (16777215 =? 16777215) with true. cbv iota.
+    replace (8 + zlen body + zlen rest <? 8) with false by lia.
+    replace (8 + zlen body =? 4294967295) with false by lia. cbn [bind].
+    replace (8 + zlen body + zlen rest <? 8 + zlen body) with false by lia.
+    replace (8 + zlen body <? 8) with false by lia.
+    rewrite Esub. rewrite T2, T21, T20, T23, T19. reflexivity.
+  - cbn [s_ext sec_default]. rewrite zlen_sec_bytes_large. reflexivity.
   - rewrite asm_NSec. cbn [Ffs.asm_elems bind]. unfold sec_asm. cbn [s_type sec_default].
     rewrite T21, T20, T19. cbn [bind]. eexists; eexists; reflexivity.
 Qed.
@@ -585,7 +633,7 @@ Qed.
 (* ---------- the section loop over a well-formed sequence ---------- *)
 
 Definition sec_ok_at (d : nat) (sb : bytes) : Prop :=
-  bytes_ok sb = true /\ 4 <= zlen sb < 16777215 /\
+  bytes_ok sb = true /\ 4 <= zlen sb /\
   forall rest order,
     exists h kids, parse_section d 255 (sb ++ rest) order = Ok (NSec h sb kids, 255) /\
       s_ext h = zlen sb /\
